@@ -12,6 +12,7 @@ import PintModel.Gen.EvalTables
 import PintModel.Model.Format
 import PintModel.Gen.FormatTables
 import PintModel.Model.Context
+import PintModel.Model.GroupSys
 import PintModel.Gen.DefaultRegistry
 
 open Lean
@@ -22,6 +23,7 @@ structure DriverState where
   reg : Registry
   ctx : Ctx.State := {}
   baseReg : Option Registry := none      -- the registry without context redefinitions
+  gs : Option GS.State := none
   deriving Inhabited
 
 /-! ### codecs -/
@@ -359,6 +361,85 @@ def stepCtx (st : DriverState) (j : Json) : DriverState × Json :=
   | some "clear" => ({ st with ctx := {}, reg := base, baseReg := none }, okJ Json.null)
   | _ => (st, badJ "ctx: f")
 
+
+/-! ### groups and systems (C14) -/
+
+def strsJ (l : List String) : Json := Json.arr ((l.toArray.qsort (· < ·)).map Json.str)
+
+def defaultGS : Except Err GS.State := GS.fromDefs Gen.defaultRegistry Gen.defaultDefs
+
+def jSystemDefn? (j : Json) : Option SystemDefn := do
+  let rs ← (field j "rules" >>= jArr?)
+  let rules ← rs.toList.mapM fun r => do
+    let a ← jArr? r
+    pure (← jStr? (← a[0]?), (a[1]? >>= jStr?))
+  pure { name := ← fStr j "name", using_ := (fStrList j "using").getD [], rules := rules }
+
+/-- canonical names with the same dimensionality as `u` (`dimensional_equivalents`) -/
+def equivalentsOf (R : Registry) (u : UC) : Except Err (List String) :=
+  match R.getDimensionality u with
+  | .error e => .error e
+  | .ok d =>
+    let names := GS.dedup (R.units.map fun p => p.2.name)
+    .ok (names.filter fun n => !(R.prefixed.contains n) && (match R.getDimensionality [(n, 1)] with
+      | .ok d' => d'.beq d
+      | .error _ => false))
+
+def stepGS (st : DriverState) (j : Json) : DriverState × Json :=
+  let R := st.reg
+  let gs? : Except Err GS.State := match st.gs with | some g => .ok g | none => defaultGS
+  match gs? with
+  | .error e => (st, errJ e)
+  | .ok gs =>
+  let st := { st with gs := some gs }
+  match fStr j "f" with
+  | some "members" =>
+    match fStr j "g" with
+    | some g => (st, if (GS.findGroup gs g).isSome then okJ (strsJ (GS.groupMembers gs g)) else errJ .value)
+    | none => (st, badJ "gs members: g")
+  | some "sys_members" =>
+    match fStr j "s" with
+    | some s => (st, match GS.findSystem gs s with | some sy => okJ (strsJ (GS.systemMembers gs sy)) | none => errJ .value)
+    | none => (st, badJ "gs sys_members: s")
+  | some "base" =>
+    match fUC j "u" with
+    | some u => (st, exceptJ (fun p => Json.arr #[ratJ p.1, ucJ p.2]) (GS.getBaseUnits (registerKeys R u) gs u (fStr j "system")))
+    | none => (st, badJ "gs base: u")
+  | some "compat" =>
+    match fUC j "u" with
+    | some u =>
+      if u.isEmpty then (st, okJ (strsJ [])) else
+      (match equivalentsOf (registerKeys R u) u with
+        | .error e => (st, errJ e)
+        | .ok eq => (st, exceptJ strsJ (GS.compatibleUnits gs eq (fStr j "in"))))
+    | none => (st, badJ "gs compat: u")
+  | some "default_system" =>
+    let s := fStr j "s"
+    (match s with
+      | some n => if (GS.findSystem gs n).isSome then ({ st with gs := some { gs with defaultSystem := some n } }, okJ Json.null) else (st, errJ .value)
+      | none => ({ st with gs := some { gs with defaultSystem := none } }, okJ Json.null))
+  | some "add_group" =>
+    match fStr j "name" with
+    | some n =>
+      (match GS.addGroup gs n ((fStrList j "units").getD []) ((fStrList j "using").getD []) with
+        | .ok gs' => ({ st with gs := some gs' }, okJ Json.null)
+        | .error e => (st, errJ e))
+    | none => (st, badJ "gs add_group: name")
+  | some "add_units" =>
+    match fStr j "g", fStrList j "units" with
+    | some g, some us =>
+      ({ st with gs := some { gs with groups := gs.groups.map fun x => if x.name == g then { x with units := GS.dedup (x.units ++ us) } else x } }, okJ Json.null)
+    | _, _ => (st, badJ "gs add_units")
+  | some "add_system" =>
+    match field j "sys" >>= jSystemDefn? with
+    | some sd => (match GS.addSystem R gs sd with
+        | .ok gs' => ({ st with gs := some gs' }, okJ Json.null)
+        | .error e => (st, errJ e))
+    | none => (st, badJ "gs add_system")
+  | some "systems" => (st, okJ (strsJ (gs.systems.map (·.name))))
+  | some "groups" => (st, okJ (strsJ (gs.groups.map (·.name))))
+  | _ => (st, badJ "gs: f")
+
 /-! ### registry queries (C01, C02, C08) -/
 
 def stepReg (st : DriverState) (op : String) (j : Json) : DriverState × Json :=
@@ -488,6 +569,7 @@ def step (st : DriverState) (j : Json) : DriverState × Json :=
   | some "tree" => (st, stepTree j)
   | some "format" => (st, stepFormat st.reg j)
   | some "ctx" => stepCtx st j
+  | some "gs" => stepGS st j
   | some op => stepReg st op j
 
 end Pint
